@@ -149,7 +149,7 @@ func genAuditCase(rt *rapid.T) AuditCase {
 	c := AuditCase{HTTP: rapid.IntRange(0, 2).Draw(rt, "http") == 0}
 	c.Pre = rapid.SliceOfN(rapid.Custom(func(rt *rapid.T) dbx.Op {
 		return dbx.GenOp(rt, c06Names, []string{"put", "put", "put", "activate", "delver"}, 1)
-	}), 0, 8).Draw(rt, "pre")
+	}), h.LenBias(rt, 0, 8), 8).Draw(rt, "pre")
 	n := rapid.IntRange(1, 2).Draw(rt, "ncallers")
 	for i := 0; i < n; i++ {
 		rs := genRuleSet(rt)
@@ -160,7 +160,7 @@ func genAuditCase(rt *rapid.T) AuditCase {
 	}
 	c.Ops = rapid.SliceOfN(rapid.Custom(func(rt *rapid.T) dbx.Op {
 		return dbx.GenOp(rt, c06Names, append([]string{"cond", "cond"}, c01Kinds...), n+1)
-	}), 1, 25).Draw(rt, "ops")
+	}), h.LenBias(rt, 1, 25), 25).Draw(rt, "ops")
 	switch rapid.IntRange(0, 3).Draw(rt, "fault") {
 	case 1:
 		c.FailWrite = rapid.IntRange(1, len(c.Ops)).Draw(rt, "failwrite")
@@ -384,7 +384,7 @@ func runC06(t *testing.T, c AuditCase) (*h.Violation, h.Info) {
 
 var c06 = &h.Campaign[AuditCase]{
 	Prop: "C06", Sub: "audit",
-	Rule:  "rapid: C01-style scenarios (superuser pre-history, 1-2 restricted callers with generated rule sets, 1-25 calls of every kind incl. conditional gets) on db.DB with a recording audit sink (every Write/Sync logged together with whether the database file still equals its pre-call bytes) and a fault plan: the k-th Write fails (nothing or half the record written) or the k-th Sync fails, k anywhere in the history; per call the set of required records comes from the ACL+map model; non-trivial = scenario has a denial AND a delivery AND (an unchanged conditional get OR an injected sink fault that hits an allowed mutation); distinct by scenario",
+	Rule:  "rapid: C01-style scenarios (superuser pre-history, 1-2 restricted callers with generated rule sets, 1-25 calls of every kind incl. conditional gets) on db.DB - or, one case in three, through the registered HTTP handlers and setec.Client with a WhoIs table, where a caller without rules is a peer without any grant - over names that include two of 1 105 bytes differing in the last byte, with a recording audit sink (every Write/Sync logged together with whether the database file still equals its pre-call bytes) and a fault plan: the k-th Write fails (nothing or half the record written) or the k-th Sync fails, k anywhere in the history; per call the set of required records comes from the ACL+map model; non-trivial = scenario has a denial AND a delivery AND (an unchanged conditional get OR an injected sink fault that hits an allowed mutation); distinct by scenario",
 	Quick: 6000, Thorough: 800000,
 	Gen: genAuditCase,
 	Run: runC06,
@@ -517,7 +517,7 @@ func runC06Conc(t *testing.T, c ConcAuditCase) (*h.Violation, h.Info) {
 
 var c06conc = &h.Campaign[ConcAuditCase]{
 	Prop: "C06", Sub: "concurrent",
-	Rule:  "rapid: 2-8 goroutines x 5-40 calls (all kinds whose logging does not depend on state: get, get-version, info, put, activate, delete-version, delete, list; allowed and denied by generated rule sets) started together on one db.DB writing to a real audit.NewFile log, under the race detector; afterwards every line of the file must be one complete record and the multiset of (caller, action, secret, version, authorized) must equal the calls made; non-trivial = >= 2 goroutines and >= 10 calls; distinct by scenario",
+	Rule:  "rapid: 2-8 goroutines x 5-40 calls (all kinds whose logging does not depend on state: get, get-version, info, put, activate, delete-version, delete, list; allowed and denied by generated rule sets) started together on one db.DB writing to a real audit.NewFile log (in one case of three everything stops half-way, the log is closed and opened again and the database re-opened with it), under the race detector; afterwards every line of the file must be one complete record and the multiset of (caller, action, secret, version, authorized) must equal the calls made; non-trivial = >= 2 goroutines and >= 10 calls; distinct by scenario",
 	Quick: 150, Thorough: 20000,
 	Gen: func(rt *rapid.T) ConcAuditCase {
 		g := rapid.IntRange(2, 8).Draw(rt, "goroutines")
